@@ -88,7 +88,7 @@ CLAIMED = {
     ref="4/C16"),
  "C27": dict(
     technique="differential (lock-step) property-based testing of the frame stack against the reference machine's frame model",
-    text="Generated programs with nested JSR/JSRR, traps, top-level returns, interrupts and registered signatures (plus raw states, a third of them with a call gadget whose argument block reaches the top of memory) in lock step: depth (saturating) and, with debug frames, every frame's caller, callee, kind, frame pointer and argument values.",
+    text="Generated programs with nested JSR/JSRR, traps, top-level returns, interrupts and registered signatures (plus raw states, a third of them with a call gadget whose argument block reaches the top of memory) in lock step: depth (saturating) and, with debug frames, every frame's caller, callee, kind, frame pointer and argument values. In strict mode a RET whose jump is rejected must leave the frame depth unchanged (enumerated).",
     note="Frame model in harness/src/model/cpu.rs.",
     ref="4/C27"),
  "C28": dict(
